@@ -578,4 +578,168 @@ drv_release(struct drv *d)
     d->nlive = 0;
 }
 
+/* ---- learned receive capacity (C08, C09) ---------------------------------------------- */
+/* How many octets of a block the receiver keeps for its own bookkeeping is the
+ * library's business.  The capacity of an allocator block size (the largest
+ * message it receives into such a block) is therefore learned from the
+ * library's own answers: well-formed write requests of every length exist on
+ * the length-prefix transport, and the capacity is the length L for which the
+ * receiver accepts the request of L octets and does not accept the one of L+1.
+ * sizeof(RPFrame) only serves as the first guess.  Probes are not cases: they
+ * count no transitions and report nothing; a probe that is needed inside a
+ * case runs inside it (a crash is then the case's). */
+
+/* a well-formed request of raw length L in wire form; returns the wire length,
+ * 0 if the transport has no well-formed frame of that length.  tcp: octet
+ * write request with L-12 payload octets; serial: the octet read request
+ * (L == 14) or an octet write request with L-16 payload octets (L >= 17). */
+static size_t
+drv_probe_frame(unsigned char *wire, unsigned char *raw, unsigned char *pl, bool tcp, size_t L)
+{
+    struct rframe f;
+    memset(&f, 0, sizeof f);
+    f.seq = 0x7e57;
+    f.addr = 0x10;
+    if (tcp) {
+        if (L < 12)
+            return 0;
+        f.type = RT_WRITE_REQ;
+        f.plen = L - 12;
+    } else if (L == 14) {
+        f.type = RT_READ_REQ;
+        f.options = RO_HDCRC;
+        f.bsize = 1;
+    } else if (L >= 17) {
+        f.type = RT_WRITE_REQ;
+        f.options = RO_HDCRC | RO_PLCRC;
+        f.plen = L - 16;
+    } else
+        return 0;
+    if (f.type == RT_WRITE_REQ) {
+        for (size_t i = 0; i < f.plen; ++i)
+            pl[i] = (unsigned char)(0x41 + i % 23);
+        f.payload = pl;
+        f.bsize = (uint32_t)f.plen;
+    }
+    const size_t n = rr_build(raw, &f, false, false);
+    return tcp ? rr_lenprefix(wire, raw, n) : rr_slip(wire, raw, n);
+}
+
+static struct drv drv_probe_d;
+
+/* does a receiver with blocks of bsz octets accept the well-formed request of
+ * raw length L?  (-1: there is no such request on this transport) */
+static int
+drv_probe_accepts(bool tcp, size_t bsz, size_t L)
+{
+    unsigned char *raw = malloc(L + 32), *pl = malloc(L + 32), *wire = malloc(2 * L + 64);
+    const size_t wn = drv_probe_frame(wire, raw, pl, tcp, L);
+    int res = -1;
+    if (wn) {
+        struct drv *const saved = g_drv;
+        struct drv *d = &drv_probe_d;
+        drv_init_ex(d, tcp, false, bsz, tcp ? DRV_SRC_CHUNK : DRV_SRC_OCTET);
+        d->src_budget = (long)(4 * wn + 1000);
+        drv_feed(d, wire, wn);
+        RPMaybeFrame mf;
+        memset(&mf, 0, sizeof mf);
+        const int rrc = regp_recv(&d->p, &mf);
+        res = rrc >= 0 && mf.error.id == 0 && mf.frame != NULL;
+        if (mf.frame != NULL)
+            regp_free(&d->p, mf.frame);
+        drv_release(d);
+        g_drv = saved;
+    }
+    free(raw);
+    free(pl);
+    free(wire);
+    return res;
+}
+
+#define DRV_CAP_UNKNOWN ((size_t)-1)
+#define DRV_CAPCACHE 4096
+static struct drv_capent {
+    size_t bsz, cap;
+    signed char have, serial; /* serial: 0 not asked yet, 1 agrees, -1 does not */
+} drv_capcache[DRV_CAPCACHE], drv_capbig[8];
+static int drv_ncapbig;
+
+static struct drv_capent *
+drv_capent_for(size_t bsz)
+{
+    if (bsz < DRV_CAPCACHE)
+        return &drv_capcache[bsz];
+    for (int i = 0; i < drv_ncapbig; ++i)
+        if (drv_capbig[i].bsz == bsz)
+            return &drv_capbig[i];
+    struct drv_capent *e = &drv_capbig[drv_ncapbig < 8 ? drv_ncapbig++ : 7];
+    memset(e, 0, sizeof *e);
+    return e;
+}
+
+/* the capacity of blocks of bsz octets as the library shows it: the length of
+ * the longest well-formed request it receives into one.  0: it receives none
+ * (the capacity is below the 12 octets of the shortest frame);
+ * DRV_CAP_UNKNOWN: its answers do not define one. */
+static size_t
+drv_learn_capacity(size_t bsz)
+{
+    struct drv_capent *e = drv_capent_for(bsz);
+    if (e->have && e->bsz == bsz)
+        return e->cap;
+    e->bsz = bsz;
+    e->have = 1;
+    e->serial = 0;
+    /* the first guess settles most blocks with two probes */
+    if (bsz > sizeof(RPFrame) + 12) {
+        const size_t g = bsz - sizeof(RPFrame);
+        if (drv_probe_accepts(true, bsz, g) == 1 && drv_probe_accepts(true, bsz, g + 1) == 0)
+            return e->cap = g;
+    }
+    /* a request longer than the whole block cannot have been received into it */
+    if (drv_probe_accepts(true, bsz, bsz + 1) != 0)
+        return e->cap = DRV_CAP_UNKNOWN;
+    size_t lo = 11, hi = bsz + 1; /* lo: accepted (or the sentinel 11), hi: not accepted */
+    while (hi - lo > 1) {
+        const size_t mid = lo + (hi - lo) / 2;
+        if (drv_probe_accepts(true, bsz, mid) == 1)
+            lo = mid;
+        else
+            hi = mid;
+    }
+    return e->cap = lo == 11 ? 0 : lo;
+}
+
+/* do serial frames meet the same capacity?  (the longest well-formed serial
+ * request of at most cap octets is accepted, the shortest longer one is not) */
+static bool
+drv_capacity_serial_agrees(size_t bsz)
+{
+    const size_t cap = drv_learn_capacity(bsz);
+    struct drv_capent *e = drv_capent_for(bsz);
+    if (cap == DRV_CAP_UNKNOWN)
+        return false;
+    if (e->serial == 0) {
+        const size_t below = cap >= 17 ? cap : cap >= 14 ? 14 : 0;
+        const size_t above = cap + 1 >= 17 ? cap + 1 : cap + 1 <= 14 ? 14 : 17;
+        const bool ok = (below == 0 || drv_probe_accepts(false, bsz, below) == 1) && drv_probe_accepts(false, bsz, above) == 0;
+        e->serial = ok ? 1 : -1;
+    }
+    return e->serial > 0;
+}
+
+/* a block size whose learned capacity is exactly `target` octets (on both
+ * transports if `serial`); 0 if none of the 33 sizes from the first guess
+ * upwards has it */
+static size_t
+drv_block_for_capacity(size_t target, bool serial)
+{
+    for (size_t d = 0; d <= 32; ++d) {
+        const size_t bsz = sizeof(RPFrame) + target + d;
+        if (drv_learn_capacity(bsz) == target && (!serial || drv_capacity_serial_agrees(bsz)))
+            return bsz;
+    }
+    return 0;
+}
+
 #endif /* VERIF_REGP_REF_H */
